@@ -583,8 +583,13 @@ fn rt_op<IntT: Wide>(mut arr: MergeSkaArray<IntT>, op: &[String]) {
             apply_filters(&mut arr, min_freq, op[3] == "1", &filter, op[4] == "1", op[5] == "1");
             arr.write_fasta(&mut o).unwrap();
         }
-        "dist" => {
+        "dist" | "dist2" => {
             let min_freq: f64 = op[1].parse().unwrap();
+            if op[0] == "dist2" {
+                // a first call on the unfiltered array, as a library user comparing settings would make it; its result is not used
+                let first = arr.distance(0.0);
+                assert!(first.len() == arr.nsamples());
+            }
             let constant = apply_filters(&mut arr, min_freq, false, &FilterType::NoConst, false, false);
             let d = arr.distance(constant as f64);
             for (i, row) in d.iter().enumerate() {
